@@ -313,18 +313,26 @@ func (p c04) Run(t *testing.T, s harness.Scenario) harness.Outcome {
 		redirected := map[string]bool{}
 		accepted := map[string]int{}
 		atReplica := map[string]bool{}
-		for _, le := range cl.Log {
+		redirChain := map[string][]int{} // the nodes that answered a uniquely identifiable command with MOVED/ASK, in order
+		execAt := map[string]int{} // position in the nodes' log at which a uniquely identifiable command was executed
+		for li, le := range cl.Log {
 			n := strings.ToLower(string(le.Args[0]))
 			if n == "readonly" || n == "cluster" || n == "asking" {
 				continue
 			}
 			if le.Accepted {
+				if _, seen := execAt[formKey(le.Args)]; !seen && uniqueArg(le.Args) {
+					execAt[formKey(le.Args)] = li
+				}
 				accepted[formKey(le.Args)]++
 				if le.AsReplica {
 					atReplica[formKey(le.Args)] = true
 				}
 			} else {
 				redirected[formKey(le.Args)] = true
+				if uniqueArg(le.Args) {
+					redirChain[formKey(le.Args)] = append(redirChain[formKey(le.Args)], le.Node)
+				}
 			}
 		}
 		byKey := map[string][]porcupine.Operation{}
@@ -473,7 +481,49 @@ func (p c04) Run(t *testing.T, s harness.Scenario) harness.Outcome {
 					if anyRedir {
 						clause = "program-order-across-redirection"
 					}
-					return &simrtViolation{Clause: clause, Detail: fmt.Sprintf("history of key %q is linearizable only by executing two requests of one connection out of order: %s", k, describe())}
+					// which pair was executed out of order? (identifiable for commands carrying a unique value: their
+					// execution has a position in the nodes' log).  The known defect is "the earlier request made a
+					// second trip after a redirection while the later one was routed directly"; a pair in which the later
+					// request was redirected as well has another cause and gets its own clause.
+					witness := ""
+					for _, a := range ops {
+						ia := a.Input.(c04In)
+						ea, oka := execAt[formKey(ia.args)]
+						if !oka {
+							continue
+						}
+						for _, b := range ops {
+							ib := b.Input.(c04In)
+							eb, okb := execAt[formKey(ib.args)]
+							if !okb || ia.conn != ib.conn || ia.idx >= ib.idx || ea < eb {
+								continue
+							}
+							ra, rb := redirected[formKey(ia.args)], redirected[formKey(ib.args)]
+							w := fmt.Sprintf("c%d#%d executed after c%d#%d", ia.conn, ia.idx, ib.conn, ib.idx)
+							switch {
+							case ra && !rb:
+								if witness == "" {
+									witness = w + " (earlier request redirected, later request routed directly)"
+								}
+							case rb && fmt.Sprint(redirChain[formKey(ia.args)]) != fmt.Sprint(redirChain[formKey(ib.args)]):
+								// both made second trips, sent back by different nodes (or a different number of times):
+								// the same missing ordering barrier as in the known defect
+								if witness == "" {
+									witness = w + fmt.Sprintf(" (both redirected, by different nodes: %v and %v)", redirChain[formKey(ia.args)], redirChain[formKey(ib.args)])
+								}
+							case rb:
+								clause = "program-order-among-redirected"
+								witness = w + fmt.Sprintf(" (both were sent back by the same node(s) %v in order, and reached the target out of order)", redirChain[formKey(ia.args)])
+							default:
+								clause = "program-order"
+								witness = w + " (neither request was redirected)"
+							}
+						}
+					}
+					if witness != "" {
+						witness = "; out-of-order pair: " + witness
+					}
+					return &simrtViolation{Clause: clause, Detail: fmt.Sprintf("history of key %q is linearizable only by executing two requests of one connection out of order: %s%s", k, describe(), witness)}
 				case porcupine.Unknown:
 					w.inconclusive = true
 				}
